@@ -8,9 +8,16 @@ use vstd::prelude::*;
 
 verus! {
 
-pub mod large_blobs { use vstd::prelude::*; verus! {
-    #[verifier::external_body] pub struct Request<'a> { _p: core::marker::PhantomData<&'a ()> }
-    #[verifier::external_body] pub struct Response { _p: () } } }
+pub mod serde_bytes { use vstd::prelude::*; verus! {
+    #[verifier::external_body] pub struct Bytes { _p: () } } }
+pub mod large_blobs {
+    use vstd::prelude::*;
+    use crate::serde_bytes;
+    verus! {
+//@extract src/ctap2/large_blobs.rs :: ^pub struct Request<'a> :: noderive
+    #[verifier::external_body] pub struct Response { _p: () }
+    }
+}
 
 pub type Result<T> = core::result::Result<T, Error>;
 
